@@ -274,6 +274,64 @@ def family_part(ck: Check):
         if ref_params is None:
             ref_params = params
         cs.obs(t, "spelling_invariance", 0.0 if (len(params) == len(ref_params) and max(abs(a - b) for a, b in zip(params, ref_params)) < 1e-12) else 1.0)
+    # "every member carries its OWN period": a finely resolved family (step 1e-6: neighbouring periods differ by ~1e-7 relative) and a
+    # seed rebuilt from a converged state whose period was never set; each member's period against an independent re-correction
+    fam, kw, comp, step = seeds[0]
+    for scen in ("fine-step", "period-less-seed"):
+        label = f"{fam}|natural|{scen}"
+        ck.count(("family", label), True)
+        try:
+            seed = L.create_orbit(fam, **kw)
+            seed.correct()
+            if scen == "period-less-seed":
+                seed = L.create_orbit(fam, initial_state=np.asarray(seed.initial_state, dtype=float).copy(),
+                                      **({"zenith": kw["zenith"]} if "zenith" in kw else {}))
+            p0 = float(seed.initial_state[comp])
+            st = 1e-6 if scen == "fine-step" else step
+            opts = OrbitContinuationOptions(target=([p0 - 1e-9], [p0 + 10 * st]), step=(st,), max_members=4, max_retries_per_step=8,
+                                            step_min=1e-10, step_max=1.0, shrink_policy=None, extra_params=seed.correction_options)
+            res = seed.generate(opts)
+        except Exception as ex:
+            ck.violation(f"orbit.generate|{scen}|raises:{type(ex).__name__}", f"{label}: {ex!r}"[:300], {"case": label})
+            continue
+        t = cs.trace(label, {"member_period_is_its_own": -85, "members_generated": -100}, {"family": fam, "stepper": "natural", "scenario": scen})
+        members = list(res.family)[1:]
+        cs.obs(t, "members_generated", 0.0 if len(members) >= 2 else 1.0)
+        worst = 0.0
+        for o in members:
+            o2 = L.create_orbit(fam, initial_state=np.asarray(o.initial_state, dtype=float).copy(), **({"zenith": kw["zenith"]} if "zenith" in kw else {}))
+            o2.correct()
+            worst = max(worst, 1.0 if o.period is None else abs(float(o.period) - float(o2.period)))
+        cs.obs(t, "member_period_is_its_own", worst)            # observed ~1e-12 (the re-correction converges in 0 iterations)
+    # spellings of the continuation STATE selection: a scalar enum member (also the one whose value is 0), a plain int, a tuple, a list
+    ref_params = None
+    stepx = 2e-4
+    for spelling, val in (("(SynodicState.X,)", (SynodicState.X,)), ("SynodicState.X", SynodicState.X), ("0", 0), ("[0]", [0])):
+        label = f"lyapunov|natural|state-spelling={spelling}"
+        ck.count(("family", label), True)
+        try:
+            seed = L.create_orbit("lyapunov", amplitude_x=4e-3)
+            seed.correct()
+            seed.continuation_config = seed.continuation_config.merge(stepper="natural", state=val)
+            p0 = float(seed.initial_state[SynodicState.X])
+            lo, hi = p0 - 1e-9, p0 + 2.5 * stepx
+            opts = OrbitContinuationOptions(target=([lo], [hi]), step=(stepx,), max_members=5, max_retries_per_step=8, step_min=1e-10,
+                                            step_max=1.0, shrink_policy=None, extra_params=seed.correction_options)
+            res = seed.generate(opts)
+        except Exception as ex:
+            ck.violation(f"orbit.generate|state-spelling|raises:{type(ex).__name__}", f"{label}: {ex!r}"[:300], {"case": label})
+            continue
+        t = cs.trace(label, {"spelling_invariance": -100, "leaves_target": -100, "offset_is_current_step": -90, "other_components_not_stepped": -90},
+                     {"family": "lyapunov", "stepper": "natural", "scenario": "state-spelling"})
+        params = [float(np.asarray(p).ravel()[0]) for p in res.parameter_values]
+        inside = [lo <= p <= hi for p in params]
+        cs.obs(t, "leaves_target", 0.0 if (len(params) >= 3 and (not inside[-1] or len(params) == 5)) else 1.0)
+        if ref_params is None:
+            ref_params = params
+        cs.obs(t, "spelling_invariance", 0.0 if (len(params) == len(ref_params) and max(abs(a - b) for a, b in zip(params, ref_params)) < 1e-12) else 1.0)
+        cs.obs(t, "offset_is_current_step", max((min(abs((b - a) - stepx / 2 ** k) for k in range(0, 12)) for a, b in zip(params, params[1:])), default=1.0))
+        # the natural predictor moves the SELECTED component only: y and z of every member's initial state stay those of the seed (0)
+        cs.obs(t, "other_components_not_stepped", max(abs(float(o.initial_state[c])) for o in res.family for c in (SynodicState.Y, SynodicState.Z)))
     if not any(v > 0 for v in ck.cov["parts"].get("family_rejections", {}).values()):
         ck.notes.append("family contracts: no forced-rejection scenario produced a rejection; the shrink path was not exercised end to end")
     cs.decide(key_fn=lambda t, n: f"orbit.generate|{n}")
